@@ -3,7 +3,7 @@ package main
 // Thread mode hooks. In sequential mode these are no-ops; threads.go is
 // extended later with the scheduler and the happens-before race detector.
 
-func (in *Interp) onRead(p *Value)  {
+func (in *Interp) onRead(p *Value) {
 	if in.th != nil {
 		in.th.access(in, p, false)
 	}
@@ -19,7 +19,7 @@ func (in *Interp) lockOp(mu Value, op string) {
 		in.th.lockOp(in, mu.(*Value), op)
 		return
 	}
-	in.event("sync."+op)
+	in.event("sync." + op)
 }
 
 func (in *Interp) syncPoint(what string) {
